@@ -1,6 +1,7 @@
 package gencode
 
 import (
+	"fmt"
 	"math"
 	"reflect"
 	"sort"
@@ -572,6 +573,25 @@ func genChild(t *rapid.T, md protoreflect.MessageDescriptor, depth int, o genOpt
 		return sub
 	}
 	return genDyn(t, md, depth-1, o)
+}
+
+// nilOneMapValue replaces the value under the smallest key of every map with message values by a nil pointer
+// (a state plain Go code can create: m.Items[k] = nil).  Reports whether anything was changed.
+func nilOneMapValue(m any) bool {
+	v := reflect.ValueOf(m).Elem()
+	tt := v.Type()
+	changed := false
+	for i := 0; i < v.NumField(); i++ {
+		f := v.Field(i)
+		if !tt.Field(i).IsExported() || f.Kind() != reflect.Map || f.Type().Elem().Kind() != reflect.Ptr || f.Len() == 0 {
+			continue
+		}
+		keys := f.MapKeys()
+		sort.Slice(keys, func(a, b int) bool { return fmt.Sprint(keys[a].Interface()) < fmt.Sprint(keys[b].Interface()) })
+		f.SetMapIndex(keys[0], reflect.Zero(f.Type().Elem()))
+		changed = true
+	}
+	return changed
 }
 
 // setEmptyContainers turns every nil slice / map field of a generated struct into an empty non-nil one
